@@ -27,7 +27,8 @@ FEATURES = {
     "gap": ["bare", "semi", "hash", "comment", "hasheq"],   # what follows the '=' of an emptied parameter
     "delim": [False, True],                     # ';' after statements that have a value
     "nl": ["\n", "\r\n"],
-    "between": ["none", "blank", "comment", "hashline"],    # lines between statements
+    "between": ["none", "blank", "comment", "hashline", "comment2", "hashline2"],    # lines between statements
+    "names": ["plain", "pvlish"],               # parameter names that are not ODL identifiers: ^a, ns:b, c-1, d.x
     "end": [True, False],                       # END statement present
     "pack": [False, True],                      # two statements per physical line
     "indent": ["spaces", "tabs"],
@@ -40,6 +41,7 @@ CANON = {k: v[0] for k, v in FEATURES.items()}
 PAIRS = [("gap", "delim"), ("eq", "end"), ("eq", "gap"), ("end", "gap"), ("between", "gap"), ("gap", "pack"),
          ("end", "nl"), ("eq", "nl"), ("eq", "between"), ("between", "delim"), ("eq", "delim")]
 PAIRS += [("eq", "trail"), ("gap", "trail"), ("delim", "trail"), ("eq", "eqfrom")]
+PAIRS += [("gap", "names"), ("eq", "names"), ("between", "names"), ("names", "pack")]
 PAIRS = [tuple(sorted(p)) for p in PAIRS]
 TRIPLES = [("eq", "eqfrom", "trail"), ("delim", "eq", "eqfrom")]
 
@@ -120,6 +122,8 @@ def render(doc, empty, lay):
             ind = ("  " * level) if lay["indent"] == "spaces" else ("\t" * (level + 1))
             if s[0] == "A":
                 name, (vtext, vexp) = s[1], VALS[s[2]]
+                if lay.get("names", "plain") == "pvlish":
+                    name = {"a": "^a", "b": "ns:b", "c": "c-1", "d": "d.x"}[name]
                 eq = lay["eq"] if count[0] >= lay["eqfrom"] else "same"
                 count[0] += 1
                 head = ind + name + (nl + ind + "=" if eq == "ownline" else
@@ -164,6 +168,10 @@ def render(doc, empty, lay):
                 sep += "/* note = 1 */" + nl
             elif lay["between"] == "hashline":
                 sep += "# note = 1" + nl
+            elif lay["between"] == "comment2":
+                sep += "/* ===== a = 1; b = 2 ===== */" + nl
+            elif lay["between"] == "hashline2":
+                sep += "# was: a = 1, b = 2" + nl
             if last and not lay["end"] and "#" not in st:
                 sep = ""
         pieces.append(sep)
